@@ -11,6 +11,7 @@ import (
 	"sort"
 	"strconv"
 	"strings"
+	"sync"
 	"time"
 
 	"github.com/innovationb1ue/RedisGO/config"
@@ -205,8 +206,13 @@ func execStep(mgr *server.Manager, cmd [][]byte) (out string) {
 //
 //	CASE <name> <dbs>
 //	C <conn> <sleep_ms> <hexarg> <hexarg> ...     (sleep happens before the command)
+//	BG <conn> <delay_ms> <hexarg> ...           (issued by another goroutine delay_ms after the next C command starts)
 //	DUMP
 //	END
+//
+// A C command preceded by BG lines, and every BLPOP/BRPOP, is traced as the G lines of the
+// background commands (same layout as S, chronological), the S line, and "T <unix ms at which the
+// C command returned>".
 //
 // The same Manager is shared by all connections of a case (as server.Start does).
 func memRunCmd(args []string) error {
@@ -228,6 +234,12 @@ func memRunCmd(args []string) error {
 	sc := bufio.NewScanner(f)
 	sc.Buffer(make([]byte, 1<<20), 1<<28)
 	var mgr *server.Manager
+	type bgCmd struct {
+		conn  string
+		delay int
+		args  []string
+	}
+	var pendingBG []bgCmd
 	progress, _ := os.Create(args[1] + ".progress")
 	defer progress.Close()
 	for sc.Scan() {
@@ -253,9 +265,48 @@ func memRunCmd(args []string) error {
 			for _, h := range fs[3:] {
 				cmd = append(cmd, unhx(h))
 			}
+			name := ""
+			if len(cmd) > 0 {
+				name = strings.ToLower(string(cmd[0]))
+			}
+			timed := len(pendingBG) > 0 || name == "blpop" || name == "brpop"
+			bgOut := make([]string, len(pendingBG))
+			bgAt := make([]time.Time, len(pendingBG))
+			var wg sync.WaitGroup
+			for i, b := range pendingBG {
+				wg.Add(1)
+				go func(i int, b bgCmd) {
+					defer wg.Done()
+					time.Sleep(time.Duration(b.delay) * time.Millisecond)
+					bc := make([][]byte, 0, len(b.args))
+					for _, h := range b.args {
+						bc = append(bc, unhx(h))
+					}
+					bgAt[i] = time.Now()
+					bgOut[i] = execStep(mgr, bc)
+				}(i, b)
+			}
 			now := time.Now()
 			out := execStep(mgr, cmd)
+			end := time.Now()
+			wg.Wait()
+			order := make([]int, len(pendingBG))
+			for i := range order {
+				order[i] = i
+			}
+			sort.SliceStable(order, func(a, b int) bool { return bgAt[order[a]].Before(bgAt[order[b]]) })
+			for _, i := range order {
+				b := pendingBG[i]
+				fmt.Fprintf(w, "G %d %d %s %s | %s\n", bgAt[i].Unix(), bgAt[i].UnixMilli(), b.conn, strings.Join(b.args, " "), bgOut[i])
+			}
+			pendingBG = nil
 			fmt.Fprintf(w, "S %d %d %s %s | %s\n", now.Unix(), now.UnixMilli(), fs[1], strings.Join(fs[3:], " "), out)
+			if timed {
+				fmt.Fprintf(w, "T %d\n", end.UnixMilli())
+			}
+		case "BG":
+			ms, _ := strconv.Atoi(fs[2])
+			pendingBG = append(pendingBG, bgCmd{conn: fs[1], delay: ms, args: fs[3:]})
 		case "DUMP":
 			now := time.Now().Unix()
 			for i, d := range mgr.DBs {
